@@ -125,15 +125,15 @@ theorem rep_union {lab : Lab} {F : List Edge} (h : Rep lab F) (e : Edge) :
   · constructor
     · intro h'; exact Or.inr (Or.inl ⟨h', trivial⟩)
     · rintro (h' | ⟨h1, _⟩ | ⟨h1, _⟩)
-      · exact absurd h' hi
+      · exact h'.elim
       · exact h1
-      · exact absurd h1 hi
+      · exact h1.elim
   · constructor
     · intro h'; exact Or.inl h'
     · rintro (h' | ⟨_, h2⟩ | ⟨h1, _⟩)
       · exact h'
       · exact absurd h2.symm hj
-      · exact absurd h1 hi
+      · exact h1.elim
 
 theorem foldl_union_rep (G : List Edge) : ∀ (lab : Lab) (F : List Edge), Rep lab F →
     Rep (G.foldl (fun lab e => union lab e.u e.v) lab) (F ++ G) := by
@@ -270,7 +270,7 @@ theorem comps_snoc_le {n : Nat} {F : List Edge} {e : Edge} (hu : e.u < n) (hv : 
     comps n F ≤ comps n (F ++ [e]) + 1 := by
   by_cases h : Conn F e.u e.v
   · rw [comps_snoc_conn h]; omega
-  · rw [← comps_snoc_not hu hv h]; omega
+  · rw [← comps_snoc_not hu hv h]
 
 /-- each further edge removes at most one component -/
 theorem comps_le_append {n : Nat} (G : List Edge) : ∀ (F : List Edge), Valid n G →
@@ -324,7 +324,7 @@ theorem acyclic_tight {n : Nat} {F : List Edge} (hF : Valid n F) (h : Acyclic F)
   have key : ∀ k, k ≤ F.length → k + comps n (F.take k) = n := by
     intro k
     induction k with
-    | zero => intro _; simp [comps_nil]
+    | zero => simp [comps_nil]
     | succ k ih =>
       intro hk
       have hk' : k < F.length := hk
